@@ -142,6 +142,48 @@ def partial_big(e: int, last: int, x: int) -> bool:
     return h.length == n + last and len(buf) == n + last + 1 and buf[0] == x and buf[-1] == 0xEE and bytes(buf[1:-1]) == body[1:]
 
 
+FINALS = (0, 1, 191, 192, 193, 8383, 8384, 8385)
+
+
+@ob('O9.2c', 'partial body lengths whose FINAL part is long: after one or two partial chunks the final length may take the one-, two- or five-octet form (also a five-octet form '
+             'for a small value): the total is the sum, every length field is removed, the body octets stay in order and nothing after the packet is touched',
+    'k in 1..2 partial chunks of 2^e octets (e by symbolic index from {0, 1, 9}); final length by symbolic index from {0,1,191,192,193,8383,8384,8385}, shortest form or forced five-octet form; '
+    'first body octet symbolic, concrete filler', cond_timeout={'q': 240, 't': 600}, partitions=[['k == 1'], ['k == 2']])
+def partial_final_wide(k: int, ei: int, fi: int, five: bool, x: int) -> bool:
+    """
+    pre: k in (1, 2)
+    pre: 0 <= ei < 3
+    pre: 0 <= fi < 8
+    pre: 0 <= x < 256
+    post: _
+    """
+    e = 0
+    for j, v in enumerate((0, 1, 9)):
+        if ei == j:
+            e = v
+    last = 0
+    for j in range(8):
+        if fi == j:
+            last = FINALS[j]
+    n = 2 ** e
+    chunks = [BIGFILL[100:100 + n]] + ([BIGFILL[700:700 + n]] if k == 2 else [])
+    tail = BIGFILL[3000:3000 + last]
+    lenfield = bytes([255, 0, 0, last // 256, last % 256]) if five else rfc_newlen(last)
+    buf = bytearray()
+    body = bytearray()
+    for j, c in enumerate(chunks):
+        c = (bytes([x]) + c[1:]) if j == 0 else c
+        buf += bytearray([224 + e]) + bytearray(c)
+        body += bytearray(c)
+    buf += bytearray(lenfield) + bytearray(tail) + bytearray(b'\xEE\xDD')
+    body += bytearray(tail)
+    h = Header()
+    h._lenfmt = 1
+    h.length = buf
+    total = n * k + last
+    return h.length == total and len(buf) == total + 2 and bytes(buf[:total]) == bytes(body) and bytes(buf[total:]) == b'\xEE\xDD'
+
+
 # ------------------------------------------------------------------------------------ O9.3 / O9.4
 @ob('O9.3', 'old-format header: emitted length field has the width the tag octet announces and decodes to n '
             '(never narrower than the value needs)',
@@ -429,7 +471,7 @@ def subpacket_grow(i0: int, i1: int, hashed_area: bool) -> bool:
 
 assert rfc_newlen(1723) == rfc_newlen_arith(1723) == b'\xC5\xFB' and rfc_newlen(100000) == b'\xff\x00\x01\x86\xa0'   # RFC 4880 4.2.3
 _GRID = (0, 1, 191, 192, 193, 8383, 8384, 8385, 65535, 65536, 2 ** 24, 2 ** 32 - 1)
-SANITY = (['time_codec(%d, %d, %d)' % (f, z, t) for f in range(3) for z in (1, 5) for t in (0, 7, 9)] + ['subpacket_grow(%d, %d, %s)' % (a, b, h) for a, b in ((4, 5), (5, 4), (9, 10), (10, 9), (0, 11)) for h in (True, False)] + ['newlen_roundtrip(%d)' % v for v in _GRID] + ['newfmt_header(2, %d)' % v for v in _GRID] +
+SANITY = (['partial_final_wide(%d, %d, %d, %s, 7)' % (k, e, f, v) for k in (1, 2) for e in range(3) for f in (0, 3, 6) for v in (True, False)] + ['time_codec(%d, %d, %d)' % (f, z, t) for f in range(3) for z in (1, 5) for t in (0, 7, 9)] + ['subpacket_grow(%d, %d, %s)' % (a, b, h) for a, b in ((4, 5), (5, 4), (9, 10), (10, 9), (0, 11)) for h in (True, False)] + ['newlen_roundtrip(%d)' % v for v in _GRID] + ['newfmt_header(2, %d)' % v for v in _GRID] +
           ['newfmt_header(63, %d)' % v for v in _GRID] + ['subpacket_header(2, True, %d)' % max(v, 1) for v in _GRID] +
           ['newlen_decode(0xC5, 0xFB, 0, 0, 0)', 'newlen_decode(0xFF, 0, 1, 0x86, 0xA0)', 'partial_lengths(2, 1, 0, 2, 7)',
            'partial_lengths(1, 3, 0, 0, 0)', 'partial_big(0, 0, 5)', 'partial_big(16, 2, 5)', 'partial_big(17, 1, 255)', 'oldfmt_header(6, 0, 255)', 'oldfmt_header(6, 1, 65535)', 'oldfmt_header(2, 2, 2 ** 32 - 1)',
